@@ -346,6 +346,84 @@ example : Heap.Upd #[{ parent := none, vars := [(['a'], V.num 0)] }]
     (insertAt #[{ parent := none, vars := [(['a'], V.num 0)] }] 0 ['a'] (V.num 5)) :=
   upd_insertAt_declared #[{ parent := none, vars := [(['a'], V.num 0)] }] 0 ['a'] (V.num 5) (by decide)
 
+/-- the declaration-only fragment: non-`!global` assignments (with or without `!default`)
+whose right-hand sides are literals, variable reads, or one `+` / `<` / `==` over them -/
+def DeclOnly (body : List Stmt) : Prop :=
+  ∀ stmt ∈ body, ∃ x e d, stmt = Stmt.decl x e d false ∧ e.simple = true
+
+theorem upd_ghostMark {h0 h1 : Heap} (ha : Heap) (hu : h0.Upd h1) (s : Nat) (x : Name) (d g : Bool) :
+    h0.Upd (ghostMark ha h1 s x d g) := by
+  unfold ghostMark
+  simp only
+  repeat' split
+  all_goals first
+    | exact hu
+    | exact Heap.Upd.trans hu (upd_markGhosts _ _ _)
+
+/-- **the body hypothesis of `loop_frame`, derived syntactically** for the declaration-only
+fragment (any flags, spec or as-is, any fuel): a body of non-`!global` assignments, run in
+a scope newer than `h0`, keeps `Heap.Upd h0` — each assignment lands in the running scope or
+in a scope that already declares the name (`upd_setVariable_local`), and its right-hand
+side does not touch the heap (`evalExpr_simple_state`). -/
+theorem decl_body_keeps_frame (h0 : Heap) (cfg : Cfg) (fn : Bool) :
+    ∀ (body : List Stmt), DeclOnly body → ∀ (fuel f : Nat) (st : St) (r : Option V) (st' : St),
+      h0.size ≤ f → h0.Upd st.heap → exec fuel cfg fn f body st = .ok (r, st') → h0.Upd st'.heap := by
+  intro body
+  induction body with
+  | nil =>
+    intro _ fuel f st r st' _ hu h
+    cases fuel with
+    | zero => simp [exec] at h
+    | succ k => simp [exec] at h; obtain ⟨_, rfl⟩ := h; exact hu
+  | cons stmt rest ih =>
+    intro hd fuel f st r st' hf hu h
+    obtain ⟨x, e, d, rfl, hsimple⟩ := hd _ (List.mem_cons_self ..)
+    have hrest : DeclOnly rest := fun s hs => hd s (List.mem_cons_of_mem _ hs)
+    cases fuel with
+    | zero => simp [exec] at h
+    | succ k =>
+      rw [exec] at h
+      cases k with
+      | zero => simp [execStmt] at h
+      | succ m =>
+        simp only [execStmt] at h
+        cases he : evalExpr m cfg f e st with
+        | error e' => simp [he] at h
+        | ok res =>
+          obtain ⟨v, st1⟩ := res
+          have := evalExpr_simple_state hsimple he
+          subst this
+          simp only [he, assign] at h
+          by_cases hc : (cfg.ghosts && ghostAssign st1.heap f (normName x) d false) = true
+          · rw [if_pos hc] at h; simp at h
+          · rw [if_neg hc] at h
+            simp only at h
+            refine ih hrest (m + 1) f _ r st' hf ?_ h
+            simp only
+            by_cases hg : cfg.ghosts = true
+            · rw [if_pos hg]; exact upd_ghostMark _ (upd_setVariable_local hu cfg.sq hf _ _ _) _ _ _ _
+            · rw [if_neg hg]; exact upd_setVariable_local hu cfg.sq hf _ _ _
+
+/-- **loop variables are local — unconditional for declaration-only bodies**: after a
+`@for` / `@each` whose body is any sequence of non-`!global` assignments, every scope that
+existed before the loop declares exactly the names it declared before (the loop variable
+included: it was neither added to nor overwritten in any of them); only values of
+variables they already declared may have been assigned. -/
+theorem loop_vars_local_decl_bodies (h0 : Heap) (cfg : Cfg) (fn : Bool) (s : Nat) (kind : Kind) (x : Name)
+    (body : List Stmt) (hb : DeclOnly body) (vals : List V) (fuel : Nat) (st : St) (r : Option V) (st' : St)
+    (hst : h0.Upd st.heap) (hrun : loopFresh fuel cfg fn s kind x vals body st = .ok (r, st')) :
+    ∀ i, i < h0.size → ∀ y, declares st'.heap y i = declares h0 y i :=
+  loop_vars_local_any_body h0 cfg fn s kind x body
+    (fun fuel f st r st' hf hu h => decl_body_keeps_frame h0 cfg fn body hb fuel f st r st' hf hu h)
+    vals fuel st r st' hst hrun
+
+example : DeclOnly [.decl ['a'] (.add (.var ['a']) (.var ['i'])) false false, .decl ['b'] (.num 1) true false] := by
+  intro s hs
+  simp only [List.mem_cons, List.not_mem_nil, or_false] at hs
+  rcases hs with rfl | rfl
+  · exact ⟨_, _, _, rfl, rfl⟩
+  · exact ⟨_, _, _, rfl, rfl⟩
+
 /-- **loop_vars_local, `@each` as the code has it** (transform.rs: define in the enclosing
 scope, `store_local_values` before, `restore_local_values` after): after the loop the
 enclosing scope's own variables are what they were. -/
@@ -495,7 +573,9 @@ theorem refute_each_var_visible_outside :
 
 /-! Proved above: `loop_frame` / `loop_vars_local_any_body` — the loop construct adds nothing to
 what its body does, for arbitrary bodies, relative to a frame hypothesis on the body.
-Still not proved (kept visible): discharging that body hypothesis *syntactically* —
+`decl_body_keeps_frame` / `loop_vars_local_decl_bodies` discharge the body hypothesis
+syntactically for the declaration-only fragment.
+Still not proved (kept visible): the same for bodies with nested blocks and calls —
 "for every body whose assignments are non-`!global` assignments to names declared in an
 enclosing scope and whose expressions call no function with `!global` writes,
 `exec … body` keeps `Heap.Upd h0`" — which needs one induction over the whole mutual
